@@ -94,7 +94,8 @@ def rstep(s, r):
 
 
 def step(v, s0, lb):
-    fixA, fixB, fixC = v
+    fixA, fixB, fixC = v[0], v[1], v[2]
+    fixA2 = v[3] if len(v) > 3 else v[0]     # count before spawn (second half of fix A); mirror only
     s = s0.copy()
     k, i = lb
     if k in (L_STEP, L_TAKE, E_CONN):
@@ -130,7 +131,7 @@ def step(v, s0, lb):
                 return None
             l[0], l[2] = LTOP, False
         elif pc == LGOT:
-            if fixA:
+            if fixA2:
                 s.C += 1
                 l[0] = LCOUNTED
             else:
@@ -334,7 +335,46 @@ REPAIRED = (True, True, True)
 
 
 def xsched(v, n, sched):
-    return xl(xl(xbool(v[0]), xbool(v[1]), xbool(v[2])), xl(*[xn(a) for a in n]), xlist([xl(xn(k), xn(i)) for k, i in sched]))
+    return xl(xl(*[xbool(b) for b in v]), xl(*[xn(a) for a in n]), xlist([xl(xn(k), xn(i)) for k, i in sched]))
+
+
+def violating_schedules(v, n, max_conns, depth=40, cap=60000):
+    """shortest schedules of the mirror (code shape v) that break clause 1 / clause 2 of the property"""
+    s0 = init(v, *n)
+    seen = {s0.key()}
+    frontier = [(s0, (), 0)]
+    found = {}
+    for _ in range(depth):
+        nxt = []
+        for s, path, env in frontier:
+            for lb in labels(s, max_conns - env):
+                if lucky(s, lb):
+                    continue
+                t = step(v, s, lb)
+                if t is None or t.key() in seen:
+                    continue
+                seen.add(t.key())
+                p2 = path + (lb,)
+                live = any(l[0] in (LGOT, LCOUNTED) for l in t.ls) or any(c in (CSPAWNED, CRUNNING) for c in t.cs)
+                if t.finished and live and "clause1" not in found:
+                    found["clause1"] = p2
+                if t.S and "clause2" not in found:
+                    quiet = all(step(v, t, l2) is None for l2 in labels(t, 0))
+                    done = (t.finished and all(l[0] == LEXITED for l in t.ls) and all(c == CDONE for c in t.cs)
+                            and all(h == HACKED for h in t.hooks) and all(t.waiters))
+                    if quiet and not done:
+                        found["clause2"] = p2
+                nxt.append((t, p2, env + (lb[0] == E_CONN)))
+                if len(seen) > cap:
+                    return found
+        if len(found) == 2:
+            break
+        frontier = nxt
+    return found
+
+
+BROKEN_SHAPES = [(False, True, True, False), (True, False, True, True), (True, True, False, True),
+                 (True, True, True, False), (False, True, True, True), (False, False, False, False)]
 
 
 def rep(v, n, sched, kind):
@@ -470,6 +510,11 @@ def spec_ok(c, i, s):
     r = clauses(i)
     if r is None:
         return True   # nothing observed (malformed / not executed): the differ decides
+    if c.meta.get("kind") == "directed-shape":
+        # a schedule shaped for a broken variant of the code: only the property's clauses on the observed run count
+        if not (r[0] and r[1]):
+            c.meta["why"] = r[2]
+        return r[0] and r[1]
     try:
         sv = kv.xparse(s)
     except Exception:
@@ -532,6 +577,14 @@ def signature(c, m):
 
 def directed(rng, mismatches):
     cases = []
+    # the model's own refutation witnesses, for every code shape in which one repair (or half of it) is missing:
+    # if the code under test has that shape, the schedule reproduces the violation on it
+    for v in BROKEN_SHAPES:
+        for n, mc in (((1, 1, 0, 1), 1), ((2, 1, 0, 1), 0)):
+            for kind, sched in violating_schedules(v, n, mc).items():
+                for _ in range(2):
+                    c = rep(v, n, list(sched), "directed-shape")
+                    cases.append(c)
     for n, text in DIRECTED:
         for _ in range(3):
             cases.append(rep(REPAIRED, n, parse_sched(text), "directed"))
@@ -592,8 +645,28 @@ TRUSTED = ["modelled: src/shutdown.rs Manager::{add_connection, remove_connectio
            "WakerList::notify, set_waker/remove_waker, AcceptFuture::accept (poll_fn + select!), ConnectionGuard; src/lib.rs accept (loop, "
            "count, spawn, exit) and the listener part of RunConfig::execute; src/ctl.rs shutdown/wait plugins as caller + hook",
            "hook points: kvarn commits listed in hooks.json (feature verif-hooks, add-only); the schedule controller lives in the harness"]
-LEVEL_TEXT = ""
-LEVEL_NOTE = ""
+LEVEL_TEXT = ("Machine-checked Coq theorems over an executable labelled transition system of the shutdown manager, the accept future, "
+              "the accept loops, the connection tasks (handler returns or panics), the shutdown callers, the completion task, pre-shutdown "
+              "hooks, waiters and arriving connections, one transition per access to shared memory, for every schedule and any number of "
+              "listeners, connections, callers, hooks and waiters (not only the 1-2 / 0-3 / 1-2 of the property text): in every reachable "
+              "state of the repaired code the shutdown-complete signal implies that no accepted connection is unfinished and no listener is "
+              "bound (finished_after_all, finished_listeners_closed); every reachable state in which shutdown was requested and no thread "
+              "can move has the signal sent, every listener exited, every connection task ended (also after a panic, also with zero "
+              "connections, also with two callers), every hook acknowledged, every waiter resolved (no_hang); the signal is sent only after "
+              "as many acknowledgements as hooks were registered when the completion task read their number (hooks_before_finished). For "
+              "kvarn 0.6.3 as found the three statements are refuted by explicit schedules (accepted-but-uncounted connection; panicking "
+              "handler; waker registered after notify), each replayed step by step on the real code before it was repaired (three fix "
+              "commits). The interleavings are sequentially consistent: the Release/Acquire store-buffering executions that the C/C++11 "
+              "memory model allows between shutdown() (store flag, load count) and remove_connection() (decrement count, load flag) are NOT "
+              "covered and not claimed. 'completes' (from every requested state some continuation reaches the signal) is not proved as a "
+              "separate theorem; no_hang gives it for every maximal run of the threads, termination of those runs is not mechanised. The "
+              "model is tied to the repository on every run by replaying model schedules on a real server through rendez-vous hook points "
+              "and by a method-level differential on a real Manager.")
+LEVEL_NOTE = ("Trusted: Coq kernel; extraction (ExtrOcamlBasic) reduced by an in-kernel recheck sample; the hand transcription of "
+              "src/shutdown.rs and of the accept loop of src/lib.rs as validated by the schedule replay (which serialises the real threads "
+              "at the hook points: what happens between two hook points is assumed atomic w.r.t. the other threads, e.g. a swap replaced "
+              "by load+store is invisible to it); tokio's scheduler, select!, wakers and channels are outside every theorem. Weak-memory "
+              "executions: not covered. No axioms.")
 TECHNIQUE = ("Coq proof (inductive invariants over all schedules of an executable labelled transition system, any number of listeners, "
              "connections, callers, hooks, waiters) + schedule-replay correspondence on the real server through rendez-vous hook points + "
              "method-level differential on the real Manager")
